@@ -1,0 +1,17 @@
+//go:build verif
+
+package client
+
+import (
+	"google.golang.org/protobuf/proto"
+
+	"github.com/openconfig/gnmi/client"
+)
+
+// VerifNewDecoder returns the receive function of a fresh, unconnected Client
+// for query q: every message passed to it is processed by the real defaultRecv
+// and delivered to q.NotificationHandler. Only built with the verif tag.
+func VerifNewDecoder(q client.Query) func(proto.Message) error {
+	c := &Client{query: q, handler: q.NotificationHandler}
+	return c.defaultRecv
+}
